@@ -13,6 +13,16 @@ func ExecOnce(e Engine, p *Plan, props map[string]bool, known map[string]bool, k
 	run.KeepTrace = keepTrace
 	defer func() {
 		if x := recover(); x != nil {
+			// Engines go on after a failure of a property that is not the one being checked (so that
+			// every property's check reaches its own oracles); their reference state may then be out
+			// of step with a chain that is already known to misbehave. A panic after such a failure
+			// ends the run; it is not evidence of a harness defect.
+			for k, n := range run.Counters {
+				if n > 0 && len(k) > 21 && k[:21] == "other-prop-violation/" {
+					run.Counters["run-ended-by-panic-after-other-property-violation"]++
+					return
+				}
+			}
 			harnessErr = fmt.Sprintf("%v\n%s", x, debug.Stack())
 		}
 	}()
